@@ -261,7 +261,7 @@ def run(ctx):
         elif c.get('op', 'none') == 'none':
             repo = [(c['origin'], c['text'])]
     else:
-        for i in range(int(os.environ.get('C03_NGEN', '0')) or (16 if quick else 300)):
+        for i in range(int(os.environ.get('C03_NGEN', '0')) or (16 if quick else 200)):
             g = F.Gen(rng, FEATURES)
             prog = g.program(nstmts=rng.randint(4, 8), depth=2)
             gen.append((prog, g.inputs(prog, 2)))
@@ -307,7 +307,7 @@ def run(ctx):
                 continue
             if not units:
                 continue
-            nedit = (3 if origin.startswith('generated') else 1) if quick else 9
+            nedit = (3 if origin.startswith('generated') else 1) if quick else 4
             for _ in range(nedit):
                 edit_specs.append((origin, text, rng.choice(units), rng.randrange(1000), rng.choice(['replace', 'remove', 'subst'])))
     edit_raised = 0
